@@ -85,6 +85,65 @@ Arguments mkIt {R T}. Arguments tabs {R T}. Arguments cur {R T}. Arguments done 
 Arguments bsz {R T}. Arguments cap {R T}. Arguments fetch {R T}. Arguments capped {R T}.
 Arguments next {R T}. Arguments nexts {R T}. Arguments drain {R T}. Arguments from_arrow_iter {R T}.
 
+(* ---------- the iterator as an object consumed in several steps (Round 3) ----------
+   _RowsIterator.__iter__ returns self, so next(it), itertools.islice(it, k), a for loop left with break and
+   list(it) all advance the SAME position.  A session is a sequence of such steps on one iterator object. *)
+Inductive iop :=
+| INext              (* next(it, None), also next(iter(it), None) *)
+| ITake (k : nat)    (* list(itertools.islice(it, k)); a for loop left with break after k rows *)
+| IDrain.            (* list(it); a for loop run to the end *)
+
+Section IterSession.
+Variable R : Type.
+Variable T : Type.
+Variable process_table : T -> N -> list R.
+
+(* at most k calls of next(), stopping at the first StopIteration: the rows delivered and the iterator afterwards *)
+Fixpoint take_n (k : nat) (s : iter R T) : list R * iter R T :=
+  match k with
+  | 0 => ([], s)
+  | S k' => match next process_table s with
+            | (Some r, s') => let '(l, s'') := take_n k' s' in (r :: l, s'')
+            | (None, s') => ([], s')
+            end
+  end.
+
+(* enough next() calls to exhaust the iterator *)
+Definition ifuel (s : iter R T) : nat :=
+  S (length (cur s) + length (concat (map (fun t => process_table t (bsz s)) (tabs s)))).
+
+Definition istep (s : iter R T) (op : iop) : list R * iter R T :=
+  match op with
+  | INext => take_n 1 s
+  | ITake k => take_n k s
+  | IDrain => take_n (ifuel s) s
+  end.
+
+(* what each step of the session delivers *)
+Fixpoint irun (s : iter R T) (ops : list iop) : list (list R) :=
+  match ops with
+  | [] => []
+  | op :: r => let '(l, s') := istep s op in l :: irun s' r
+  end.
+
+End IterSession.
+
+Arguments take_n {R T}. Arguments ifuel {R T}. Arguments istep {R T}. Arguments irun {R T}.
+
+(* what the property promises for a session over the rows E still to come: every step takes the next rows, in order *)
+Definition ispec_step {R : Type} (rest : list R) (op : iop) : list R * list R :=
+  match op with
+  | INext => (firstn 1 rest, skipn 1 rest)
+  | ITake k => (firstn k rest, skipn k rest)
+  | IDrain => (rest, [])
+  end.
+
+Fixpoint ispec {R : Type} (rest : list R) (ops : list iop) : list (list R) :=
+  match ops with
+  | [] => []
+  | op :: r => let '(l, rest') := ispec_step rest op in l :: ispec rest' r
+  end.
+
 (* what the property promises: the first `size` rows (all of them for None; 0 is read as None by `if size`) *)
 Definition limit {A : Type} (size : option N) (l : list A) : list A :=
   match size with
@@ -205,8 +264,39 @@ Definition expected_out (E : list (list C)) (ncols : nat) (op : fop) : fout :=
   | OpMaterialize => OutNone
   end.
 
+(* Round 3: the frame's column names are part of its state: a column of the frame's schema (or the caller's list of
+   names, which the frame keeps by reference) may be renamed in place between two calls.  dataframe.py column_names
+   (400-405) reads the schema as it is NOW. *)
+Variable Nm : Type.
+
+Inductive sop := SOp (op : fop) | SRename (j : nat) (nm : Nm).
+
+Fixpoint set_nth (j : nat) (x : Nm) (l : list Nm) : list Nm :=
+  match l, j with
+  | [], _ => []
+  | _ :: r, 0 => x :: r
+  | y :: r, S j' => y :: set_nth j' x r
+  end.
+
+(* every step reports the column names in force and what the call returned *)
+Fixpoint srun (f : frame) (names : list Nm) (ops : list sop) : list (list Nm * fout) :=
+  match ops with
+  | [] => []
+  | SOp op :: r => let '(f1, o) := fstep (length names) f op in (names, o) :: srun f1 names r
+  | SRename j nm :: r => (set_nth j nm names, OutNone) :: srun f (set_nth j nm names) r
+  end.
+
+(* the promise: a function of the rows E held, the names in force and the call alone *)
+Fixpoint sspec (E : list (list C)) (names : list Nm) (ops : list sop) : list (list Nm * fout) :=
+  match ops with
+  | [] => []
+  | SOp op :: r => (names, expected_out E (length names) op) :: sspec E names r
+  | SRename j nm :: r => (set_nth j nm names, OutNone) :: sspec E (set_nth j nm names) r
+  end.
+
 End Frame.
 
+Arguments SOp {Nm}. Arguments SRename {Nm}. Arguments set_nth {Nm}. Arguments srun {C T} _ {Nm}. Arguments sspec {C Nm}.
 Arguments FLazy {C T}. Arguments FList {C T}. Arguments fuel_of {C T}. Arguments collect {C T}.
 Arguments materialize {C T}. Arguments frame_rows {C T}. Arguments arrays {C}. Arguments to_arrow_frame {C T}.
 Arguments OutTable {C}. Arguments OutCount {C}. Arguments OutNone {C}.
@@ -360,6 +450,27 @@ Definition flat_column (nm : list N) (t : N) (e : option N) (p s : option Z) (nl
 Definition construct (r : column) : column :=
   flat_column (cname r) (ctype r) (celem r) (cprec r) (cscale r) (cnullable r).
 
+(* ---------- one FlatColumn OBJECT, modified in place between two reads (Round 3) ----------
+   Attribute assignment (column.type = ..., column.precision = ...) does not go through __init__.  arrow_field is a
+   property: it describes the attributes as they are when it is read, and so does
+   convert_orso_schema_to_arrow_schema on a schema holding the object. *)
+Inductive cop :=
+| CSetType (t : N) | CSetElem (e : option N) | CSetPrec (p : option Z) | CSetScale (s : option Z)
+| CSetName (nm : list N) | CSetNullable (b : bool)
+| CField                       (* read column.arrow_field *)
+| CSchema (use_ids : bool).    (* convert_orso_schema_to_arrow_schema(RelationSchema(columns=[column]), use_ids) *)
+
+Definition capply (c : column) (op : cop) : column :=
+  match op with
+  | CSetType t => mkCol (cname c) t (celem c) (cprec c) (cscale c) (cnullable c)
+  | CSetElem e => mkCol (cname c) (ctype c) e (cprec c) (cscale c) (cnullable c)
+  | CSetPrec p => mkCol (cname c) (ctype c) (celem c) p (cscale c) (cnullable c)
+  | CSetScale s => mkCol (cname c) (ctype c) (celem c) (cprec c) s (cnullable c)
+  | CSetName nm => mkCol nm (ctype c) (celem c) (cprec c) (cscale c) (cnullable c)
+  | CSetNullable b => mkCol (cname c) (ctype c) (celem c) (cprec c) (cscale c) b
+  | CField | CSchema _ => c
+  end.
+
 (* FlatColumn.from_arrow ends in the FlatColumn(...) constructor *)
 Definition from_arrow_field (mab : bool) (f : afield) : result column :=
   bind (from_arrow_type mab (ftype f)) (fun '(t, e, p, s) => Ok (flat_column (fname f) t e p s (fnullable f))).
@@ -377,6 +488,20 @@ Definition orso_to_arrow_schema (use_ids : bool) (cols : list (list N * column))
 
 (* convert_arrow_schema_to_orso_schema / the schema from_arrow derives from the first table *)
 Definition arrow_to_orso_schema (fs : list afield) : result (list column) := mapM (from_arrow_field false) fs.
+
+(* what a read returns: the attributes in force, the name the field must carry, the field(s) *)
+Definition cout (ident : list N) (c : column) (op : cop) : option (column * list N * result (list afield)) :=
+  match op with
+  | CField => Some (c, cname c, bind (arrow_field c) (fun f => Ok [f]))
+  | CSchema ids => Some (c, if ids then ident else cname c, orso_to_arrow_schema ids [(ident, c)])
+  | _ => None
+  end.
+
+Fixpoint crun (ident : list N) (c : column) (ops : list cop) : list (option (column * list N * result (list afield))) :=
+  match ops with
+  | [] => []
+  | op :: r => cout ident c op :: crun ident (capply c op) r
+  end.
 
 (* ---------- the class of columns the typing clause of the property quantifies over ---------- *)
 Definition all_types : list N := map fst c11_type_names.
@@ -656,15 +781,53 @@ Definition fout_agree (names : list (list N)) (m : fout cell) (o : fobs) : bool 
   | _, _ => false
   end.
 
+Definition sout_agree (m : list (list N) * fout cell) (o : fobs) : bool := fout_agree (fst m) (snd m) o.
+
 (* (lazily backed?, the tables / the row lists the frame is built over, column names, the calls, what they returned) *)
-Definition frameops_case : Type := bool * list (list (list cell)) * list (list N) * list fop * list fobs.
+Definition frameops_case : Type := bool * list (list (list cell)) * list (list N) * list (sop (list N)) * list fobs.
 
 Definition frame_of (lazy : bool) (tables : list (list (list cell))) : frame cell (list (list cell)) :=
   if lazy then FLazy (from_arrow_iter tables None) else FList (concat tables).
 
 Definition c11_show_frameops (c : frameops_case) :=
-  let '(lazy, tables, names, ops, obs) := c in frun pt_rows (length names) (frame_of lazy tables) ops.
+  let '(lazy, tables, names, ops, obs) := c in srun pt_rows (frame_of lazy tables) names ops.
 
 Definition c11_check_frameops (c : frameops_case) : bool :=
   let '(lazy, tables, names, ops, obs) := c in
-  all2 (fout_agree names) (frun pt_rows (length names) (frame_of lazy tables) ops) obs.
+  all2 sout_agree (srun pt_rows (frame_of lazy tables) names ops) obs.
+
+(* ---------- Round 3: the rows iterator consumed in several steps ---------- *)
+(* (tables, size, the steps, the rows each step delivered) *)
+Definition iterops_case : Type := list (list (list cell)) * option N * list iop * list (list (list cell)).
+
+Definition c11_show_iterops (c : iterops_case) :=
+  let '(tables, size, ops, obs) := c in irun pt_rows (from_arrow_iter tables size) ops.
+
+Definition c11_check_iterops (c : iterops_case) : bool :=
+  let '(tables, size, ops, obs) := c in all2 rows_agree (irun pt_rows (from_arrow_iter tables size) ops) obs.
+
+(* ---------- Round 3: one column object modified in place ---------- *)
+(* per step: nothing (an assignment), or what the read returned: the field(s) and the column(s) FlatColumn.from_arrow makes of them *)
+Definition colops_case : Type :=
+  list N * column * list cop * list (option (result (list afield) * result (list column))).
+
+Definition cread_agree (m : option (column * list N * result (list afield)))
+                       (o : option (result (list afield) * result (list column))) : bool :=
+  match m, o with
+  | None, None => true
+  | Some (cur, nm, fs), Some (ofs, back) =>
+      result_eqb (list_eqb afield_eqb) fs ofs
+      && match ofs with
+         | Ok [fl] => result_eqb (list_eqb column_eqb) (bind (from_arrow_field false fl) (fun b => Ok [b])) back
+                      && came_back_named nm cur (Ok fl) (match back with Ok [b] => Ok b | Ok _ => Raise OtherError | Raise e => Raise e end)
+         | Ok _ => false
+         | Raise _ => negb (roundtrippable cur)
+         end
+  | _, _ => false
+  end.
+
+Definition c11_show_colops (c : colops_case) :=
+  let '(ident, col, ops, obs) := c in crun ident col ops.
+
+Definition c11_check_colops (c : colops_case) : bool :=
+  let '(ident, col, ops, obs) := c in all2 cread_agree (crun ident col ops) obs.
